@@ -267,12 +267,24 @@ func (s *Sess) TranscriptOps() []uint64 { return s.trOps }
 func (s *Sess) filterOf(op *Op) (ecs.Filter, *FSpec) {
 	if op.Slot != nil && op.K != "CacheRegister" {
 		r := s.regs[*op.Slot]
+		cf := &r.cached
 		if s.step%2 == 0 {
 			// Register returns the CachedFilter by value: a copy of it is as good as the value first returned
 			c := r.cached
-			return &c, r.spec
+			cf = &c
 		}
-		return &r.cached, r.spec
+		if op.Wrap != nil {
+			// a relation filter around the registered filter: its target decides (also when the registered filter
+			// is a relation filter itself), its components are those of the registered filter
+			inner := r.spec
+			if inner.K == "rel" {
+				inner = inner.L
+			}
+			rf := ecs.NewRelationFilter(cf, entOf(*op.Wrap))
+			s.Cov.N["relation_filter_over_registered_filter"]++
+			return &rf, &FSpec{K: "rel", L: inner, T: op.Wrap}
+		}
+		return cf, r.spec
 	}
 	return op.F.Build(s.IDs, entOf), op.F
 }
@@ -746,7 +758,7 @@ func (s *Sess) call(op *Op, out *Outcome) {
 		if op.Slot != nil && op.Trav%3 == 1 && !s.Failed() {
 			s.queryAcrossCacheOps(*op.Slot, f, spec, op.Trav)
 		}
-		if op.Slot != nil && op.Trav%5 == 2 && spec.K != "rel" && !s.Failed() {
+		if op.Slot != nil && op.Wrap == nil && op.Trav%5 == 2 && !s.Failed() {
 			// a relation filter whose component filter is the registered filter: selects what the relation filter
 			// over the original selects
 			t := ecs.Entity{}
@@ -755,7 +767,11 @@ func (s *Sess) call(op *Op, out *Outcome) {
 			}
 			cf := s.regs[*op.Slot].cached
 			rf := ecs.NewRelationFilter(&cf, t)
-			s.QueryCheck(&rf, &FSpec{K: "rel", L: spec, T: entP(t)}, op.Trav/5)
+			inner := spec
+			if inner.K == "rel" {
+				inner = inner.L // (nested relation filters: the outer target decides)
+			}
+			s.QueryCheck(&rf, &FSpec{K: "rel", L: inner, T: entP(t)}, op.Trav/5)
 			s.Cov.N["relation_filter_over_registered_filter"]++
 		}
 	case "GC":
@@ -907,7 +923,14 @@ func (s *Sess) visitNew(op *Op) func(q *ecs.Query) {
 // batchFilterSpec returns the spec of a batch op's filter.
 func (s *Sess) specOf(op *Op) *FSpec {
 	if op.Slot != nil {
-		return s.regs[*op.Slot].spec
+		spec := s.regs[*op.Slot].spec
+		if op.Wrap != nil {
+			if spec.K == "rel" {
+				spec = spec.L
+			}
+			return &FSpec{K: "rel", L: spec, T: op.Wrap}
+		}
+		return spec
 	}
 	return op.F
 }
